@@ -388,10 +388,13 @@ int main(int argc, char** argv)
    cfgs.push_back({g_defaultMask, 0, 2, 2});
    // families
    Ext mi = Ext::minf(), pi = Ext::pinf();
-   std::vector<std::pair<Ext, Ext>> CB = {{Ext(Q(0)), pi}, {mi, pi}, {mi, Ext(qq(5, 3))}, {Ext(qq(-1, 7)), Ext(Q(1))}, {Ext(qq(5, 3)), Ext(qq(5, 3))}};
+   std::vector<std::pair<Ext, Ext>> CB = {{Ext(Q(0)), pi}, {mi, pi}, {mi, Ext(qq(5, 3))}, {Ext(qq(-1, 7)), Ext(Q(1))}, {Ext(qq(5, 3)), Ext(qq(5, 3))},
+                                          // bounds that exclude zero (the feasibility / unboundedness transformations shift by the bound nearest to zero)
+                                          {Ext(Q(-3)), Ext(qq(-1, 3))}, {mi, Ext(Q(-1))}, {Ext(qq(1, 2)), pi}};
    std::vector<std::pair<Ext, Ext>> RS = {{mi, Ext(Q(1))}, {Ext(qq(-1, 7)), pi}, {Ext(qq(5, 3)), Ext(qq(5, 3))}, {Ext(qq(-1, 7)), Ext(qq(5, 3))}, {mi, pi}, {mi, Ext(qq(-1, 7))}};
    std::vector<RFamily> fams;
    fams.push_back({2, 2, {Q(-1), Q(0), qq(1, 3), Q(2)}, {Q(-1), Q(0), qq(1, 3)}, {CB[0], CB[1], CB[2], CB[3]}, {RS[0], RS[1], RS[2], RS[3], RS[4]}});
+   fams.push_back({2, 2, {Q(-1), Q(0), qq(1, 3), Q(2)}, {Q(-1), qq(1, 3)}, {CB[5], CB[6], CB[7], CB[1]}, {RS[0], RS[1], RS[3]}});       // columns whose bounds exclude zero
    fams.push_back({2, 2, {qq(1, 4096), Q(1), Q(4096), Q(0)}, {Q(1), Q(-1)}, {CB[0], CB[3]}, {RS[0], RS[1], RS[3]}});       // lifting range
    fams.push_back({3, 2, {Q(-1), Q(0), qq(1, 3), Q(2)}, {Q(1), Q(-1)}, {CB[0], CB[1]}, {RS[0], RS[2]}});
    fams.push_back({2, 3, {Q(-1), Q(0), qq(1, 3), Q(2)}, {Q(1), Q(-1)}, {CB[0], CB[4]}, {RS[1], RS[5]}});
